@@ -43,6 +43,8 @@ def mutations(rng, t):
         m = []
         if k == 'union':
             m += [('bare-record-in-union' if tag(x[2]) in ('record', 'null') else 'bare-in-union', x[2]), ('union-index-oob', ['union', '99', x[2]])]
+            # a null under every small index (Value::from(None) always says 0)
+            m += [('union-null-at-index', ['union', str(j), ['null']]) for j in (0, 1, 2) if not (tag(x[2]) == 'null' and j == int(x[1]))]
         elif k == 'enum':
             m += [('string-for-enum', ['string', x[2]]), ('enum-index-oob', ['enum', '77', x[2]]),
                   ('enum-wrong-symbol', ['enum', x[1], hx('nope')])]
@@ -232,6 +234,18 @@ def gen_cases(tier, seed):
         cid = 'v%d' % k; k += 1
         lines.append('%s (vw %s %s)' % (cid, hx(st), v))
         meta[cid] = (st, v, 'canonical')
+    # a null carried under the index of another branch (what Value::from(None::<T>) produces for [T, "null"])
+    for st in ['["string","null"]', '["int","null","string"]',
+               '{"type":"record","name":"O","fields":[{"name":"a","type":["string","null"]},{"name":"b","type":"long"}]}',
+               '{"type":"array","items":["long","null"]}']:
+        inner = {'["string","null"]': '%s', '["int","null","string"]': '%s',
+                 '{"type":"record","name":"O","fields":[{"name":"a","type":["string","null"]},{"name":"b","type":"long"}]}': '(record (kv #61 %s) (kv #62 (long 9)))',
+                 '{"type":"array","items":["long","null"]}': '(array %s (union 0 (long 3)))'}[st]
+        for j in (0, 1, 2):
+            cid = 'v%d' % k; k += 1
+            v = inner % ('(union %d (null))' % j)
+            lines.append('%s (vw %s %s)' % (cid, hx(st), v))
+            meta[cid] = (st, v, 'union-null-at-index')
     for i in range(n):
         r = rng.fork(i)
         node, _ = gen_case_schema(r, max_depth=r.choice([1, 2, 2, 3]))
